@@ -387,7 +387,7 @@ fn build_pool(seed: u64, idx: u64, out: &mut RunOut) -> (Vec<Call>, bool, String
   let mut shared = false;
   let origin;
   let feats_opts: [Option<Vec<String>>; 3] = [None, Some(vec![]), Some(vec!["featx".into()])];
-  match rk.weighted(&[5, 3, 3, 2, 2, 2, 1]) {
+  match rk.weighted(&[5, 3, 3, 2, 2, 2, 1, 2]) {
     0 => {
       // two or three independently inferred schemas: they reuse the rule names root, r1, r2, ... with
       // different definitions; conforming, perturbed and malformed documents; all formats
@@ -535,6 +535,56 @@ fn build_pool(seed: u64, idx: u64, out: &mut RunOut) -> (Vec<Call>, bool, String
           pool.remove(k);
         }
       }
+    }
+    7 => {
+      // calls that END UNUSUALLY (a hard error from inside validation: malformed controller of .regexp / .pcre /
+      // .abnf reached through a named rule; a disabled feature; a cut) before the same rule names are
+      // validated again at the same locations with the controller repaired: whatever the early return skipped
+      // (a guard entry not removed, a location not restored) must not reach the next call
+      origin = "after-hard-error".to_string();
+      out.probe("pool_after_hard_error");
+      let (ctrl, broken, fixed, good_doc, bad_doc) = *rw.pick(&[
+        (".regexp", "\"[a-z]+(\"", "\"[a-z]+\"", "abc", "ABC"),
+        (".pcre", "\"(?<n>[a-z]+\"", "\"(?<n>[a-z]+)\"", "abc", "123"),
+        (".regexp", "\"a{2,1}\"", "\"a{1,2}\"", "aa", "b"),
+        (".abnf", "\"r\\nr = 1*(\"", "\"r\\nr = 1*DIGIT\\n\"", "123", "12a"),
+        (".iregexp", "\"[z-a]\"", "\"[a-z]\"", "q", "7"),
+      ]);
+      let shape = *rw.pick(&[
+        "root = { id: label, ? tags: [* label] }\nlabel = tstr CTRL LIT\n",
+        "root = [* item]\nitem = label / int\nlabel = tstr CTRL LIT\n",
+        "root = { * tstr => label }\nlabel = (tstr CTRL LIT) / nil\n",
+        "root = label\nlabel = tstr CTRL LIT\n",
+      ]);
+      let mk = |lit: &str| shape.replace("CTRL", ctrl).replace("LIT", lit);
+      let docs_for = |s: &str, v: &str| -> String {
+        if s.starts_with("root = { id") {
+          format!("{{\"id\": {:?}, \"tags\": [{:?}, {:?}]}}", v, v, v)
+        } else if s.starts_with("root = [") {
+          format!("[{:?}, 1, {:?}]", v, v)
+        } else if s.starts_with("root = { *") {
+          format!("{{\"k\": {:?}, \"l\": null}}", v)
+        } else {
+          format!("{:?}", v)
+        }
+      };
+      let broken_schema = mk(broken);
+      let fixed_schema = mk(fixed);
+      for (schema, d) in [(&broken_schema, good_doc), (&fixed_schema, good_doc), (&fixed_schema, bad_doc), (&broken_schema, bad_doc)] {
+        let j = docs_for(schema, d);
+        pool.push(Call { kind: "json".into(), schema: schema.clone(), doc: j.clone().into_bytes(), features: None });
+        if rw.coin() {
+          if let Ok(v) = serde_json::from_str::<serde_json::Value>(&j) {
+            let mut b = Vec::new();
+            if ciborium::ser::into_writer(&v, &mut b).is_ok() {
+              pool.push(Call { kind: "cbor".into(), schema: schema.clone(), doc: b, features: None });
+            }
+          }
+        }
+      }
+      // feature mismatch and cut as other unusual endings
+      pool.push(Call { kind: "json".into(), schema: "root = { id: label }\nlabel = tstr .feature \"featx\"\n".into(), doc: b"{\"id\": \"abc\"}".to_vec(), features: Some(vec![]) });
+      pool.push(Call { kind: "json".into(), schema: "root = { id ^ => label, * tstr => any }\nlabel = int\n".into(), doc: b"{\"id\": \"abc\"}".to_vec(), features: None });
     }
     6 => {
       // a call that panics today (caught by the caller, as a server would) before and between ordinary ones:
